@@ -23,7 +23,7 @@ import (
 func TestVerifC09(t *testing.T) {
 	vfMain(t, vfCheck{
 		ID: "C09", Level: "exploration",
-		Rule: "exhaustive tables: OPEN with all 64 pflag sets x 6 targets x 2 attr variants, SETSTAT/FSETSTAT with all 16 attr-flag subsets x targets, every other request type against existing/missing/dir/symlink targets, every supported extended name plus near-miss and random names, handle sequences (open for read, then WRITE/FSETSTAT through the handle), each with absolute and working-directory-relative paths; thorough adds seeded request sequences without restoring the tree in between. A class is (request type, flags, target, path style).",
+		Rule:        "exhaustive tables: OPEN with all 64 pflag sets x 6 targets x 2 attr variants, SETSTAT/FSETSTAT with all 16 attr-flag subsets x targets, every other request type against existing/missing/dir/symlink targets, every supported extended name plus near-miss and random names, handle sequences (open for read, then WRITE/FSETSTAT through the handle), each with absolute and working-directory-relative paths; thorough adds seeded request sequences without restoring the tree in between. A class is (request type, flags, target, path style).",
 		Assumptions: []string{"runs as root; the writable twin is the definition of 'would modify' and of 'keeps working'", "atime is not part of the snapshot"},
 		Units: func(tier vfTier, seed uint64) int {
 			if tier == vfThorough {
